@@ -91,7 +91,7 @@ Definition more_ok (mx : option N) (cnt : N) : bool :=
 (* Repetition over an abstract body matcher; [fuel] is a list whose length bounds
    the number of iterations (subject suffix plus minimum count plus one). *)
 Fixpoint loop (mb : matcher) (k : cont) (greedy : bool) (mn : N) (mx : option N)
-         (fuel : list unit) (cnt : N) (i : N) (p : option char) (rest : str) (c : caps)
+         (fuel : str) (cnt : N) (i : N) (p : option char) (rest : str) (c : caps)
          {struct fuel} : option result :=
   match fuel with
   | [] => None
@@ -110,8 +110,9 @@ Fixpoint loop (mb : matcher) (k : cont) (greedy : bool) (mn : N) (mx : option N)
     else match stop tt with Some x => Some x | None => try_more tt end
   end.
 
-Definition rep_fuel (mn : N) (rest : str) : list unit :=
-  tt :: repeat tt (N.to_nat mn) ++ units rest.
+(* mn + 1 cells followed by the subject suffix itself (shared, not copied) *)
+Definition rep_fuel (mn : N) (rest : str) : str :=
+  repeat 0 (S (N.to_nat mn)) ++ rest.
 
 Fixpoint exec (r : regex) (k : cont) (i : N) (p : option char) (rest : str) (c : caps)
          {struct r} : option result :=
